@@ -2,5 +2,5 @@
 EXTENDS ParallelExec
 \* exhaustive checker view: the history does not influence behaviour
 ViewNoHist == <<prog, real, disp, dpc, las, wlock, wsnap, wbase, sysdep, ph, pc, att, saved, lastAL, lastWL, roCache,
-                latch, rcpt, result, cancelled>>
+                latch, rcpt, result, cancelled, init>>
 ====
